@@ -4,7 +4,7 @@
 
 use std::{io::Write, time::Instant};
 
-use eyeball_verif::{common::*, runners_adp, runners_vec, Params};
+use eyeball_verif::{common::*, runners_adp, runners_misc, runners_obs, runners_vec, Params};
 use serde_json::{json, Value};
 
 struct Spec {
@@ -22,6 +22,48 @@ const BASE_ASSUME: &[&str] = &[
 
 fn spec(id: &str) -> Option<Spec> {
     Some(match id {
+        "C01" => Spec {
+            run: runners_obs::run_c01,
+            level: "exploration",
+            rule: "call histories on the real Observable / SharedObservable (sync flavour) with a payload whose hash ignores one field; every return value and every poll result is compared with a version-counter model (value, version, per-subscriber observed version). Exhaustive over short sequences of the ~35-operation state-dependent alphabet, random long histories with <=5 subscribers, <=4 clones, write/read guards. Non-trivial = the history contains a Ready poll, a Pending poll and a conditional setter that did not store; distinct = hash of the history.",
+            assumptions: BASE_ASSUME,
+        },
+        "C16" => Spec {
+            run: runners_obs::run_c16,
+            level: "exploration",
+            rule: "the C01/C02/C03 histories executed on the async-lock flavour with every future driven by a hand-rolled executor, judged by the same model and compared call by call with the sync run of the same history; plus randomised guard scripts (write guard held across subscriber polls; read guard held while writers wait) with their own oracle. Non-trivial = Ready and Pending polls both observed (histories), or the script ran to its end (scripts); distinct = hash of (flavour, history) / of the script log.",
+            assumptions: BASE_ASSUME,
+        },
+        "C18" => Spec {
+            run: runners_misc::run_c18,
+            level: "exploration",
+            rule: "cases = (vector, diff) pairs, each checked for apply-vs-model, panic-exactly-when-documented, identity mapping and commutation under three mappings. Exhaustive for vectors up to length 4 (6 thorough) x all eleven diff kinds x all indices/lengths 0..len+1 x payload sizes 0..3; random vectors up to length 200. Non-trivial = the diff changes the vector or must panic; distinct = hash of (vector, diff).",
+            assumptions: BASE_ASSUME,
+        },
+        "C19" => Spec {
+            run: runners_obs::run_c19,
+            level: "exploration",
+            rule: "histories of clone / subscribe / subscriber clone / downgrade / upgrade / weak clone / into_shared / drops (plus sets and polls) on both lock flavours; after every single operation observable_count, subscriber_count, strong_count, weak_count of every live handle are compared with integer counters. Non-trivial = at least two count checks and one subscriber; distinct = hash of (flavour, history).",
+            assumptions: BASE_ASSUME,
+        },
+        "C02" => Spec {
+            run: runners_obs::run_c02_seq,
+            level: "exploration",
+            rule: "TEMP seq only",
+            assumptions: BASE_ASSUME,
+        },
+        "C03" => Spec {
+            run: runners_obs::run_c03_seq,
+            level: "exploration",
+            rule: "TEMP seq only",
+            assumptions: BASE_ASSUME,
+        },
+        "C20" => Spec {
+            run: runners_misc::run_c20,
+            level: "exploration",
+            rule: "bulk random histories of the vector engine (streams dropped mid-batch, while lagging, after the vector), the adapter engine (chains of 1-3 stages, both flavours) and the observable engine (both lock flavours, into_shared with and without subscribers); every element is a Tracked value whose construction, clones and drops are recorded in a table keyed by instance id: no double drop, no use after drop, table empty once everything of the history is gone. Non-trivial = the history published at least one message / diff / update; distinct = hash of the history. The same workload runs under Miri (leak check, tree borrows) and under ASan/LSan, see sanitizer_passes.",
+            assumptions: BASE_ASSUME,
+        },
         "C05" => Spec {
             run: runners_vec::run_c05,
             level: "exploration",
